@@ -32,6 +32,12 @@ struct VI {
 struct VI_less {
   bool operator()(const VI& a, const VI& b) const { return a.v < b.v || (a.v == b.v && a.i < b.i); }
 };
+// The routine must use the comparator it is given and nothing else. The built-in operators of the element type exist
+// (so that an accidental use still compiles) but are deliberately the OPPOSITE order: any use of them changes the answer.
+inline bool operator<(const VI& a, const VI& b) { return VI_less()(b, a); }
+inline bool operator>(const VI& a, const VI& b) { return VI_less()(a, b); }
+inline bool operator<=(const VI& a, const VI& b) { return !VI_less()(a, b); }
+inline bool operator>=(const VI& a, const VI& b) { return !VI_less()(b, a); }
 
 std::string show(const std::vector<ls::Bar>& v) {
   std::ostringstream o;
